@@ -20,18 +20,18 @@ theorem Clears.touches {e : Entry} {i : Nat} (h : Clears e i) : Touches e i := b
 
 theorem step_size_le (C : Crypto) (a a' : Abs) (e : Entry) (h : EntryStep C a e a') : a.blocks.size ≤ a'.blocks.size := by
   cases h with
-  | append batch nodes sig fk hne _ _ _ _ =>
+  | append batch nodes sig fk hne hw _ _ _ _ =>
     have hemp : batch.isEmpty = false := by cases batch with | nil => exact absurd rfl hne | cons _ _ => rfl
-    simp [Abs.step, hemp]
+    simp [Abs.step, hw, hemp]
   | clear s e hse =>
     have hge : ¬ s ≥ e := by omega
     simp [Abs.step, hge]
 
 theorem step_blocks (C : Crypto) (a a' : Abs) (e : Entry) (h : EntryStep C a e a') : ∃ l : List Bytes, a'.blocks = a.blocks ++ l.toArray := by
   cases h with
-  | append batch nodes sig fk hne _ _ _ _ =>
+  | append batch nodes sig fk hne hw _ _ _ _ =>
     have hemp : batch.isEmpty = false := by cases batch with | nil => exact absurd rfl hne | cons _ _ => rfl
-    exact ⟨batch, by simp [Abs.step, hemp]⟩
+    exact ⟨batch, by simp [Abs.step, hw, hemp]⟩
   | clear s e hse =>
     have hge : ¬ s ≥ e := by omega
     exact ⟨[], by simp [Abs.step, hge]⟩
@@ -40,10 +40,10 @@ theorem step_blocks (C : Crypto) (a a' : Abs) (e : Entry) (h : EntryStep C a e a
 theorem step_untouched (C : Crypto) (a a' : Abs) (e : Entry) (h : EntryStep C a e a') (i : Nat) (hu : ¬ Touches e i) :
     a'.held i = a.held i := by
   cases h with
-  | append batch nodes sig fk hne _ _ _ _ =>
+  | append batch nodes sig fk hne hw _ _ _ _ =>
     have hemp : batch.isEmpty = false := by cases batch with | nil => exact absurd rfl hne | cons _ _ => rfl
     have : ¬ (a.blocks.size ≤ i ∧ i < a.blocks.size + batch.length) := fun hh => hu ⟨_, rfl, hh.1, hh.2⟩
-    simp only [Abs.step, hemp, Bool.false_eq_true, ite_false]
+    simp only [Abs.step, hw, hemp, Bool.true_eq_false, Bool.false_eq_true, ite_false]
     by_cases h1 : a.blocks.size ≤ i
     · have : ¬ i < a.blocks.size + batch.length := by omega
       simp [h1, this]
@@ -61,10 +61,10 @@ theorem step_untouched (C : Crypto) (a a' : Abs) (e : Entry) (h : EntryStep C a 
 theorem step_kept (C : Crypto) (a a' : Abs) (e : Entry) (h : EntryStep C a e a') (i : Nat) (hh : a.held i = true) :
     a'.held i = true ∨ Clears e i := by
   cases h with
-  | append batch nodes sig fk hne _ _ _ _ =>
+  | append batch nodes sig fk hne hw _ _ _ _ =>
     have hemp : batch.isEmpty = false := by cases batch with | nil => exact absurd rfl hne | cons _ _ => rfl
     left
-    simp [Abs.step, hemp, hh]
+    simp [Abs.step, hw, hemp, hh]
   | clear s e hse =>
     have hge : ¬ s ≥ e := by omega
     by_cases hin : s ≤ i ∧ i < e
@@ -80,10 +80,10 @@ theorem step_kept (C : Crypto) (a a' : Abs) (e : Entry) (h : EntryStep C a e a')
 theorem step_low (C : Crypto) (a a' : Abs) (e : Entry) (h : EntryStep C a e a') (i : Nat) (hi : i < a.blocks.size)
     (hh : a.held i = false) : a'.held i = false := by
   cases h with
-  | append batch nodes sig fk hne _ _ _ _ =>
+  | append batch nodes sig fk hne hw _ _ _ _ =>
     have hemp : batch.isEmpty = false := by cases batch with | nil => exact absurd rfl hne | cons _ _ => rfl
     have : ¬ a.blocks.size ≤ i := by omega
-    simp [Abs.step, hemp, hh, this]
+    simp [Abs.step, hw, hemp, hh, this]
   | clear s e hse =>
     have hge : ¬ s ≥ e := by omega
     simp [Abs.step, hge, hh]
@@ -92,10 +92,10 @@ theorem step_low (C : Crypto) (a a' : Abs) (e : Entry) (h : EntryStep C a e a') 
 theorem step_heldLt (C : Crypto) (a a' : Abs) (e : Entry) (h : EntryStep C a e a')
     (hlt : ∀ i, a.held i = true → i < a.blocks.size) : ∀ i, a'.held i = true → i < a'.blocks.size := by
   cases h with
-  | append batch nodes sig fk hne _ _ _ _ =>
+  | append batch nodes sig fk hne hw _ _ _ _ =>
     have hemp : batch.isEmpty = false := by cases batch with | nil => exact absurd rfl hne | cons _ _ => rfl
     intro i hi
-    simp only [Abs.step, hemp, Bool.false_eq_true, ite_false, Bool.or_eq_true, Bool.and_eq_true, decide_eq_true_eq,
+    simp only [Abs.step, hw, hemp, Bool.true_eq_false, Bool.false_eq_true, ite_false, Bool.or_eq_true, Bool.and_eq_true, decide_eq_true_eq,
       Array.size_append, List.size_toArray] at hi ⊢
     rcases hi with hi | hi
     · have := hlt i hi; omega
